@@ -127,7 +127,8 @@ PROPS["C14"] = {
 
 PROPS["C03"] = {
     "title": "Parser accepts exactly the grammar and reports the first malformed instruction",
-    "units": {"quick": ["parser_core"], "thorough": ["parser_core", "decoder", "table_core", "parser_protocol"]},
+    "units": {"quick": ["parser_core", "parser_protocol"], "thorough": ["parser_core", "decoder", "table_core", "parser_protocol"]},
+    "only_items": {"parser_protocol": [r"Parser::(parse|new)$", r"Action::consume"]},
     "level": "proof",
     "technique": "Verus contracts on the extracted parse_header/parse_inst/parse_operands/parse_spec_constant_op and the generated operand parsers: framing, error kinds, 1-based instruction number, offset inside the declared extent, exact word accounting",
     "design_ref": "DESIGN.md §4 C03",
@@ -141,8 +142,8 @@ PROPS["C03"] = {
 }
 PROPS["C10"] = {
     "title": "Context-dependent literal widths follow the types declared earlier",
-    "units": {"quick": ["parser_core"], "thorough": ["parser_core"]},
-    "only_items": {"parser_core": [r"parse_literal", r"parse_operands", r"parse_inst"]},
+    "units": {"quick": ["parser_core", "parser_protocol"], "thorough": ["parser_core", "parser_protocol"]},
+    "only_items": {"parser_core": [r"parse_literal", r"parse_operands", r"parse_inst"], "parser_protocol": [r"Parser::(parse|new)$"]},
     "level": "proof",
     "technique": "Verus contract on the extracted parse_literal: words consumed and operand variant as a function of the tracker's abstract map only; fresh tracker per parser; tracker semantics by bounded Kani check",
     "design_ref": "DESIGN.md §4 C10",
@@ -168,7 +169,8 @@ PROPS["C04"] = {
 
 PROPS["C02"] = {
     "title": "Assemble and parse are exact inverses on grammar-conforming instructions",
-    "units": {"quick": ["assemble", "kani_assemble_str"], "thorough": ["assemble", "kani_assemble_str", "parser_core", "decoder"]},
+    "units": {"quick": ["assemble", "kani_assemble_str", "parser_core"], "thorough": ["assemble", "kani_assemble_str", "parser_core", "decoder"]},
+    "only_items": {"parser_core": [r"parse_literal", r"parse_operand", r"parse_\w+_arguments", r"parse_inst", r"parse_spec_constant_op"]},
     "engines": ["verus", "kani"],
     "level": "proof",
     "technique": "Verus contracts on the extracted Operand/Instruction/ModuleHeader/Block/Function assemble_into against an encoding spec generated from the payload types of dr::Operand; assemble_str by bounded Kani",
